@@ -10,13 +10,12 @@ A name that an import statement binds inside a function (`from pkg import conf`,
   (wherever they stand in it), hides them in the nested scopes that bind the same name (parameters, assigned names, names
   declared global, their own imports), and evaluates the header of a nested function (default values, decorators) and
   the first iterable of a comprehension in the enclosing scope;
-* `extS`: the visitors then look names up as in `DdsModel/Scope.lean` - a path is looked up from its root, which is a
-  name like any other for them.
+* `extS`: the visitors then look names up as in `DdsModel/Scope.lean`; a path is one name holding the full dotted name of
+  the object: no name of the function can hide it, and it is looked up from the root.
 
 `pyRefs` is Python's own resolution: the chain of enclosing scopes, each with its variables, its `global` declarations and
 its import bindings. `DdsProofs/Imports.lean` proves `ddsRefs = pyRefs`, occurrence by occurrence, for every body whose
-imports are from accepted packages and whose variables do not have the name of an imported root package, and that a scope
-which binds one name to two objects is refused. The fragment: names, attributes, calls / operators, lambdas,
+imports are from accepted packages, and that a scope which binds one name to two objects is refused. The fragment: names, attributes, calls / operators, lambdas,
 comprehensions; expression statements, assignments, imports, `global`, nested functions, sequencing.
 -/
 namespace Dds.Imports
@@ -102,16 +101,12 @@ inductive Ref where
 def enter (L params bound globs : List String) : List String :=
   L.filter (fun x => x ∉ globs) ++ (params ++ bound).filter (fun x => x ∉ globs)
 
-/-- the first component of a path is a local name -/
-def rootLocal (L : List String) : Path → Bool
-  | [] => false
-  | h :: _ => decide (h ∈ L)
-
-/-- the second pass (the visitors of the analysis): the head of a path is a name like any other -/
+/-- the second pass (the visitors of the analysis): a path is one name holding the full dotted name of the object, which
+no local name can be (it is looked up from the root) -/
 def extE (L : List String) : Expr → List Ref
   | .name x => if x ∈ L then [] else [.glob x]
   | .const => []
-  | .path p => if rootLocal L p then [] else [.path p]
+  | .path p => [.path p]
   | .attr e _ => extE L e
   | .app f a => extE L f ++ extE L a
   | .lam ps body => extE (enter L ps [] []) body
@@ -178,34 +173,29 @@ def pyRefs (params : List String) (body : Stmt) : List Ref :=
 
 /-! ## The hypotheses of the theorem, as executable checks -/
 
-/-- every import binding is to an object of an accepted package, whose first component is a root name -/
-def impsOK (acc : Path → Bool) (isRoot : String → Bool) (imps : List (String × Path)) : Bool :=
-  imps.all (fun kv => acc kv.2 && match kv.2 with | [] => true | h :: _ => isRoot h)
+/-- every import binding is to an object of an accepted package (the other imports do not take part in the analysis) -/
+def impsOK (acc : Path → Bool) (imps : List (String × Path)) : Bool := imps.all (fun kv => acc kv.2)
 
-/-- no variable has the name of a root -/
-def varsOK (isRoot : String → Bool) (vars : List String) : Bool := vars.all (fun v => !isRoot v)
-
-def exprOK (isRoot : String → Bool) : Expr → Bool
+/-- a source expression: no path yet -/
+def exprOK : Expr → Bool
   | .name _ => true
   | .const => true
   | .path _ => false
-  | .attr e _ => exprOK isRoot e
-  | .app f a => exprOK isRoot f && exprOK isRoot a
-  | .lam ps body => varsOK isRoot ps && exprOK isRoot body
-  | .comp ts it inn => varsOK isRoot ts && exprOK isRoot it && exprOK isRoot inn
+  | .attr e _ => exprOK e
+  | .app f a => exprOK f && exprOK a
+  | .lam _ body => exprOK body
+  | .comp _ it inn => exprOK it && exprOK inn
 
-def stmtOK (acc : Path → Bool) (isRoot : String → Bool) : Stmt → Bool
-  | .expr e => exprOK isRoot e
-  | .assign _ e => exprOK isRoot e
+def stmtOK (acc : Path → Bool) : Stmt → Bool
+  | .expr e => exprOK e
+  | .assign _ e => exprOK e
   | .imp _ _ => true
   | .global _ => true
-  | .defn _ ps hdr body =>
-      exprOK isRoot hdr && varsOK isRoot (ps ++ boundS body) && impsOK acc isRoot (impsS body) && stmtOK acc isRoot body
-  | .seq a b => stmtOK acc isRoot a && stmtOK acc isRoot b
+  | .defn _ _ hdr body => exprOK hdr && impsOK acc (impsS body) && stmtOK acc body
+  | .seq a b => stmtOK acc a && stmtOK acc b
   | .skip => true
 
-def scOK (acc : Path → Bool) (isRoot : String → Bool) (s : Sc) : Bool := varsOK isRoot s.vars && impsOK acc isRoot s.imps
-
+def scOK (acc : Path → Bool) (s : Sc) : Bool := impsOK acc s.imps
 
 /-! ## A name bound to two objects -/
 
@@ -223,6 +213,30 @@ def analyse (acc : Path → Bool) (params : List String) (body : Stmt) : Option 
   if ambImps acc (impsS body) || ambS acc body then none else some (ddsRefs acc params body)
 
 /-! ## Before the repairs -/
+
+/-- the path as a chain of attributes starting at the root package (the repairs before e955d15): the root is a name like any
+other for the visitors, a local variable of that name hides the whole path -/
+def chainE (L : List String) : Expr → List Ref
+  | .name x => if x ∈ L then [] else [.glob x]
+  | .const => []
+  | .path p => if (match p with | [] => false | h :: _ => decide (h ∈ L)) then [] else [.path p]
+  | .attr e _ => chainE L e
+  | .app f a => chainE L f ++ chainE L a
+  | .lam ps body => chainE (enter L ps [] []) body
+  | .comp ts it inn => chainE L it ++ chainE (enter L [] ts []) inn
+
+def chainS (L : List String) : Stmt → List Ref
+  | .expr e => chainE L e
+  | .assign _ e => chainE L e
+  | .imp _ _ => []
+  | .global _ => []
+  | .defn _ ps hdr body => chainE L hdr ++ chainS (enter L ps (boundS body) (globalsS body)) body
+  | .seq a b => chainS L a ++ chainS L b
+  | .skip => []
+
+def chainRefs (acc : Path → Bool) (params : List String) (body : Stmt) : List Ref :=
+  chainS (enter [] params (boundS body) (globalsS body))
+    (resS acc (enterA acc [] (globalsS body) (impsS body)) body)
 
 /-- no resolution at all (the pinned tree): an imported name is looked up in the module of the function -/
 def unresolvedRefs (params : List String) (body : Stmt) : List Ref :=
